@@ -23,6 +23,9 @@ Lemma del_keys_not_fixed p s k : k ∈ fixed_keys -> k ∉ del_keys p s.
 Proof.
   intros Hf Hin. destruct p; cbn in Hin; try (inversion Hin; fail).
   - apply elem_of_list_singleton in Hin. subst. exact (k_node_fixed n _ Hf eq_refl).
+  - destruct (services s !! (n, sid)) as [o|]; [|inversion Hin].
+    destruct (bool_decide (sv_name o = sv_name x)); [inversion Hin|]. destruct (bool_decide _); [|inversion Hin].
+    apply elem_of_list_singleton in Hin. subst. exact (k_svc_fixed _ _ Hf eq_refl).
   - destruct (services s !! (n, sid)); [|inversion Hin]. destruct (bool_decide _); [|inversion Hin].
     apply elem_of_list_singleton in Hin. subst. exact (k_svc_fixed _ _ Hf eq_refl).
 Qed.
@@ -42,13 +45,16 @@ Lemma nodes_changed i p s : nodes (papply i p s) <> nodes s -> k_nodes ∈ set_k
 Proof. rewrite nodes_papply. destruct p; intros H; try (contradiction H; reflexivity); cbn; set_solver. Qed.
 Lemma services_changed i p s : services (papply i p s) <> services s -> k_services ∈ set_keys p s.
 Proof.
-  rewrite services_papply. destruct p; intros H; try (contradiction H; reflexivity); cbn; [set_solver|].
-  destruct (services s !! (n, sid)) eqn:E; [set_solver|]. contradiction H. apply delete_notin, E.
+  rewrite services_papply. destruct p; intros H; try (contradiction H; reflexivity); cbn [set_keys].
+  - apply elem_of_app. left. apply elem_of_list_here.
+  - destruct (services s !! (n, sid)) eqn:E; [apply elem_of_app; left; apply elem_of_list_further, elem_of_list_here|].
+    contradiction H. apply delete_notin, E.
 Qed.
 Lemma checks_changed i p s : checks (papply i p s) <> checks s -> k_checks ∈ set_keys p s.
 Proof.
-  rewrite checks_papply. destruct p; intros H; try (contradiction H; reflexivity); cbn; [set_solver|].
-  destruct (checks s !! (n, cid)) eqn:E; [set_solver|]. contradiction H. apply delete_notin, E.
+  rewrite checks_papply. destruct p; intros H; try (contradiction H; reflexivity); cbn [set_keys].
+  - apply elem_of_list_here.
+  - destruct (checks s !! (n, cid)) eqn:E; [apply elem_of_list_here|]. contradiction H. apply delete_notin, E.
 Qed.
 Lemma sessions_changed i p s : sessions (papply i p s) <> sessions s -> k_sessions ∈ set_keys p s.
 Proof. rewrite sessions_papply. destruct p; intros H; try (contradiction H; reflexivity); cbn; set_solver. Qed.
